@@ -10,6 +10,7 @@ CONSTANTS
   SplitWrite = FALSE
   NoMaxCheck = FALSE
   NoMinCheck = FALSE
+  ResumeFresh = FALSE
   NoReadFull = FALSE
   WithHist = FALSE
   Export = TRUE
